@@ -127,8 +127,8 @@ def c13_cases(tier, rng):
     cases = []
     def add(streams, pool=3, delay="", grow=False, chunk=0):
         cases.append({"id": len(cases) + 1, "pool": pool, "maxsize": 0, "chunk": chunk, "sends": [], "streams": streams, "delay": delay, "growpool": grow, "parallel": False})
-    def st(n, fromr, tor, via="pid"):
-        return {"from": "", "to": "", "n": n, "via": via, "fromr": fromr, "tor": tor}
+    def st(n, fromr, tor, via="pid", comp="", big=0):
+        return {"from": "", "to": "", "n": n, "via": via, "fromr": fromr, "tor": tor, "comp": comp, "big": big}
     n = 400 if tier == "quick" else 1500
     rs = lambda: rng.randint(1, 254)
     for pool in (1, 2, 3):
@@ -137,6 +137,9 @@ def c13_cases(tier, rng):
     # residues chosen to hit every link / queue of the pool
     for pool in (2, 3):
         add([st(n, pool * 7 + k, 30 + k) for k in range(pool)] , pool=pool, delay="rotate")
+    # compressed big messages between small plain ones (the envelope must keep the receiver's queue); residues that map to different queues
+    for comp in ("gzip", "zlib", "lzw"):
+        add([st(n // 4, 3, 8, comp=comp, big=rng.choice([3000, 20000, 200000])), st(n // 4, 17, 30, "name", comp=comp, big=5000)], pool=rng.choice([1, 3]), delay=rng.choice(["", "rotate"]))
     # the design's own exceptions (spec/NetOrder.tla: sender0, recv0, join)
     add([st(n, 0, rs()), st(n, rs(), rs())], pool=3, delay="rotate")
     add([st(n, rs(), 0), st(n, rs(), rs())], pool=3, delay="rotate")
@@ -144,7 +147,7 @@ def c13_cases(tier, rng):
     add([st(n, rs(), rs()), st(n, rs(), rs())], pool=3, delay="cut")
     for _ in range(4 if tier == "quick" else 120):
         k = rng.randint(1, 4)
-        add([st(rng.choice([50, n]), rs(), rs(), rng.choice(["pid", "name"])) for _ in range(k)], pool=rng.choice([1, 2, 3, 4, 6]), delay=rng.choice(["", "link0", "rotate", "rotate"]), chunk=rng.choice([0, 0, 0, 11, 500]))
+        add([st(rng.choice([50, n]), rs(), rs(), rng.choice(["pid", "name"]), comp=rng.choice(["", "", "gzip", "lzw"]), big=rng.choice([0, 0, 4000, 60000])) for _ in range(k)], pool=rng.choice([1, 2, 3, 4, 6]), delay=rng.choice(["", "link0", "rotate", "rotate"]), chunk=rng.choice([0, 0, 0, 11, 500]))
     return cases
 
 
